@@ -318,6 +318,12 @@ func ruleTransactionalDecls(c *Ctx, rule string) {
 						}
 					}
 				case *ast.IfStmt:
+					// a branch under a constant-false conjunct restores nothing
+					for _, a := range andAtoms(x.Cond) {
+						if tv, ok := info.Types[a]; ok && tv.Value != nil && tv.Value.String() == "false" {
+							return false
+						}
+					}
 					ast.Inspect(x.Cond, func(k ast.Node) bool {
 						if id, ok := k.(*ast.Ident); ok {
 							if v, ok := info.Uses[id].(*types.Var); ok {
